@@ -21,6 +21,43 @@ pub enum InState {
 
 extern "C" {
     fn mkfifo(path: *const std::ffi::c_char, mode: u32) -> i32;
+    fn posix_openpt(flags: i32) -> i32;
+    fn grantpt(fd: i32) -> i32;
+    fn unlockpt(fd: i32) -> i32;
+    fn ptsname_r(fd: i32, buf: *mut std::ffi::c_char, len: usize) -> i32;
+}
+
+/// a pseudo-terminal pair: (master, slave); None where the sandbox has no pty support
+fn open_pty() -> Option<(std::fs::File, std::fs::File)> {
+    use std::os::unix::fs::OpenOptionsExt;
+    use std::os::unix::io::FromRawFd;
+    const O_RDWR: i32 = 2;
+    const O_NOCTTY: i32 = 0o400;
+    unsafe {
+        let m = posix_openpt(O_RDWR | O_NOCTTY);
+        if m < 0 {
+            return None;
+        }
+        let master = std::fs::File::from_raw_fd(m);
+        if grantpt(m) != 0 || unlockpt(m) != 0 {
+            return None;
+        }
+        let mut buf = [0 as std::ffi::c_char; 128];
+        if ptsname_r(m, buf.as_mut_ptr(), buf.len()) != 0 {
+            return None;
+        }
+        let name = std::ffi::CStr::from_ptr(buf.as_ptr()).to_string_lossy().to_string();
+        let slave = std::fs::OpenOptions::new().read(true).write(true).custom_flags(O_NOCTTY).open(name).ok()?;
+        Some((master, slave))
+    }
+}
+
+impl CliCase {
+    /// In one world out of sixteen the program's stderr is a terminal (a pseudo-terminal the harness reads), not a
+    /// file: `is_terminal()` is an input like any other. Derived from the case's entropy, so it replays.
+    pub fn stderr_is_terminal(&self) -> bool {
+        self.entropy % 16 == 3
+    }
 }
 
 #[derive(Clone, Debug, PartialEq)]
@@ -46,6 +83,11 @@ pub enum OutState {
     ExistingReadOnly(Vec<u8>),
     /// named: a symbolic link whose target does not exist yet (in an existing directory); creating the output creates the target
     DanglingSymlink,
+    /// the output argument is the input path itself (convert in place): the document is read completely before the
+    /// output is created, so this works; only drawn with a present, regular input file
+    SameAsInput,
+    /// named: a symbolic link to the input file
+    SymlinkToInput,
     /// named, exists and holds the rendering of the same input under the *other* sort option (same length, other
     /// line order): what an earlier run with another --sort left behind. Resolved when the case is executed.
     ExistingOtherSort,
@@ -154,6 +196,8 @@ impl CliCase {
                 OutState::DanglingSymlink => J::s("dangling_symlink"),
                 OutState::ExistingReadOnly(b) => J::obj().set("existing_read_only", bytes_j(b)),
                 OutState::ExistingOtherSort => J::s("existing_other_sort"),
+                OutState::SameAsInput => J::s("same_as_input"),
+                OutState::SymlinkToInput => J::s("symlink_to_input"),
             },
         );
         o.put("opt_args", J::Arr(self.opt_args.iter().map(J::s).collect()));
@@ -167,6 +211,10 @@ impl CliCase {
         }
         if self.sweep {
             o.put("single_fault_sweep", J::Bool(true));
+        }
+        if self.stderr_is_terminal() {
+            // informational: derived from `entropy`
+            o.put("stderr_is_a_terminal", J::Bool(true));
         }
         o
     }
@@ -186,6 +234,8 @@ impl CliCase {
             Some(J::Str(s)) if s == "dev_null" => OutState::DevNull,
             Some(J::Str(s)) if s == "dangling_symlink" => OutState::DanglingSymlink,
             Some(J::Str(s)) if s == "existing_other_sort" => OutState::ExistingOtherSort,
+            Some(J::Str(s)) if s == "same_as_input" => OutState::SameAsInput,
+            Some(J::Str(s)) if s == "symlink_to_input" => OutState::SymlinkToInput,
             Some(o) if o.get("existing_read_only").is_some() => OutState::ExistingReadOnly(j_bytes(o.get("existing_read_only").ok_or("output")?)?),
             Some(o) if o.get("existing_like_expected_plus").is_some() => OutState::ExistingLikeExpected(o.str_of("existing_like_expected_plus")?),
             Some(o) => OutState::Existing(j_bytes(o.get("existing").ok_or("output")?)?),
@@ -271,6 +321,8 @@ pub struct CliOut {
     pub after: FileSnap,
     pub fired: Fired,
     pub report: String,
+    /// stderr of this run was a pseudo-terminal
+    pub stderr_was_terminal: bool,
 }
 
 pub fn bin_path() -> PathBuf {
@@ -368,11 +420,27 @@ pub fn run_cli_env(case: &CliCase, entropy: u128, sandbox: &Path, expected: Opti
             }));
         }
         InState::Missing => {}
-        InState::Directory => std::fs::create_dir_all(&inp).map_err(|e| e.to_string())?,
+        InState::Directory => {
+            std::fs::create_dir_all(&inp).map_err(|e| e.to_string())?;
+            if case.entropy % 2 == 1 {
+                // ... and not an empty one: it holds documents (a program that starts accepting directories changes
+                // what "the input is a directory" means)
+                for (n, d) in [("b.xml", "<r><b/><a/></r>"), ("a.xml", "<r><a/><c/></r>"), ("c.xml", "<r><c/><b/></r>")] {
+                    std::fs::write(inp.join(n), d).map_err(|e| e.to_string())?;
+                }
+            }
+        }
     }
-    let outp = if matches!(case.output, OutState::DevNull) { PathBuf::from("/dev/null") } else { sandbox.join(&case.output_name) };
+    let outp = match case.output {
+        OutState::DevNull => PathBuf::from("/dev/null"),
+        OutState::SameAsInput => inp.clone(),
+        _ => sandbox.join(&case.output_name),
+    };
     match &case.output {
-        OutState::Stdout | OutState::New | OutState::InMissingDir | OutState::DevNull => {}
+        OutState::Stdout | OutState::New | OutState::InMissingDir | OutState::DevNull | OutState::SameAsInput => {}
+        OutState::SymlinkToInput => {
+            std::os::unix::fs::symlink(&case.input_name, &outp).map_err(|e| e.to_string())?;
+        }
         OutState::DanglingSymlink => {
             std::os::unix::fs::symlink("link-target-that-does-not-exist-yet.rs", &outp).map_err(|e| e.to_string())?;
         }
@@ -417,7 +485,14 @@ pub fn run_cli_env(case: &CliCase, entropy: u128, sandbox: &Path, expected: Opti
             }
         }
     }
-    let before = snap(&outp);
+    let mut before = snap(&outp);
+    if matches!(case.output, OutState::SymlinkToInput) {
+        // what counts is what the link leads to (before and after)
+        if let Ok(b) = std::fs::read(&outp) {
+            before.bytes = b;
+            before.exists = true;
+        }
+    }
     let so = sandbox.join(".stdout");
     let se = sandbox.join(".stderr");
     let rp = sandbox.join(".shim-report");
@@ -464,6 +539,9 @@ pub fn run_cli_env(case: &CliCase, entropy: u128, sandbox: &Path, expected: Opti
         OutState::DevNull => {
             cmd.arg("/dev/null");
         }
+        OutState::SameAsInput => {
+            cmd.arg(&case.input_name);
+        }
         _ => {
             cmd.arg(&case.output_name);
         }
@@ -474,8 +552,35 @@ pub fn run_cli_env(case: &CliCase, entropy: u128, sandbox: &Path, expected: Opti
     const STDOUT_MARK: &[u8] = b"## earlier content of the stdout file\n";
     std::fs::write(&so, STDOUT_MARK).map_err(|e| e.to_string())?;
     cmd.stdout(std::fs::OpenOptions::new().append(true).open(&so).map_err(|e| e.to_string())?);
-    cmd.stderr(std::fs::File::create(&se).map_err(|e| e.to_string())?);
+    // stderr: a file, or (one world in sixteen) a pseudo-terminal whose master side a thread of the harness drains
+    let mut pty_reader: Option<std::thread::JoinHandle<Vec<u8>>> = None;
+    let mut stderr_was_terminal = false;
+    match if case.stderr_is_terminal() { open_pty() } else { None } {
+        Some((master, slave)) => {
+            stderr_was_terminal = true;
+            cmd.stderr(slave);
+            pty_reader = Some(std::thread::spawn(move || {
+                use std::io::Read;
+                let mut master = master;
+                let mut all = Vec::new();
+                let mut buf = [0u8; 4096];
+                // read(2) on the master fails with EIO once the last descriptor of the slave side is closed
+                while let Ok(n) = master.read(&mut buf) {
+                    if n == 0 {
+                        break;
+                    }
+                    all.extend_from_slice(&buf[..n]);
+                }
+                all
+            }));
+        }
+        None => {
+            cmd.stderr(std::fs::File::create(&se).map_err(|e| e.to_string())?);
+        }
+    }
     let mut child = cmd.spawn().map_err(|e| format!("spawn {}: {e}", bin_path().display()))?;
+    // the Command holds the harness' copy of the slave side: release it, or the master never sees the hang-up
+    drop(cmd);
     let t0 = Instant::now();
     let mut timed_out = false;
     let status = loop {
@@ -516,11 +621,25 @@ pub fn run_cli_env(case: &CliCase, entropy: u128, sandbox: &Path, expected: Opti
                 }
             }
         },
-        stderr: std::fs::read(&se).unwrap_or_default(),
+        stderr: match pty_reader {
+            // the terminal's line discipline turns "\n" into "\r\n"
+            Some(h) => {
+                let raw = h.join().unwrap_or_default();
+                let mut v = Vec::with_capacity(raw.len());
+                for (i, b) in raw.iter().enumerate() {
+                    if *b == b'\r' && raw.get(i + 1) == Some(&b'\n') {
+                        continue;
+                    }
+                    v.push(*b);
+                }
+                v
+            }
+            None => std::fs::read(&se).unwrap_or_default(),
+        },
         before,
         after: {
             let mut a = snap(&outp);
-            if matches!(case.output, OutState::DanglingSymlink) {
+            if matches!(case.output, OutState::DanglingSymlink | OutState::SymlinkToInput) {
                 // what counts is what the link leads to afterwards
                 if let Ok(b) = std::fs::read(&outp) {
                     a.bytes = b;
@@ -531,6 +650,7 @@ pub fn run_cli_env(case: &CliCase, entropy: u128, sandbox: &Path, expected: Opti
         },
         fired: parse_report(&report, case),
         report,
+        stderr_was_terminal,
     };
     let _ = std::fs::remove_dir_all(sandbox);
     Ok(out)
